@@ -67,6 +67,7 @@ contract(
         ('kronecker_solve', 'is_tensor(self._grad) and val(self._grad) == '
                             'mul(mul(old(val(awaited(self._g_inv))), old(combined_grad(self.module))), old(val(awaited(self._a_inv))))'),
         ('gradient_dtype_restored', 'self._grad.dtype is old(self.module.module.weight.grad.dtype)'),
+        ('result_is_its_own_tensor', 'is_fresh(self._grad) and len(self._grad.shape) == 2'),
         ('module_gradients_untouched', 'val(self.module.module.weight.grad) == old(val(self.module.module.weight.grad)) and '
                                        'self.module.module.weight.grad is old(self.module.module.weight.grad)'),
         ('inverses_untouched', 'val(awaited(self._a_inv)) == old(val(awaited(self._a_inv))) and val(awaited(self._g_inv)) == old(val(awaited(self._g_inv)))'),
@@ -147,6 +148,7 @@ contract(
     ensures=[
         ('eigenbasis_solve', 'is_tensor(self._grad) and val(self._grad) == mul(mul(Qg, v2), tr(Qa))'),
         ('gradient_dtype_restored', 'self._grad.dtype is old(self.module.module.weight.grad.dtype)'),
+        ('result_is_its_own_tensor', 'is_fresh(self._grad) and len(self._grad.shape) == 2'),
         ('module_gradients_untouched', 'val(self.module.module.weight.grad) == old(val(self.module.module.weight.grad)) and '
                                        'self.module.module.weight.grad is old(self.module.module.weight.grad)'),
     ],
